@@ -141,11 +141,15 @@ theorem C14_bank_rule (b : Bank) (rs : List Win) (ws : List Bytes) (hr : Reach b
 /-- dedupe: when the duplicate detector finds the data, nothing is written: rom, used size
 and gaps are unchanged and the returned header points at the earlier sample's position. -/
 theorem C14_dedupe (b : Bank) (h : Sample) (data : Bytes) (d : Nat) (b' : Bank) (idx : Nat)
-    (hd : findDuplicate b h data = some d) (hb : b.bankSize ≠ 0) (hok : addSample b h data = .ok (b', idx)) :
+    (hd : findDuplicate b h data = some d) (hok : addSample b h data = .ok (b', idx)) :
     b'.rom = b.rom ∧ b'.currentSize = b.currentSize ∧ b'.gaps = b.gaps ∧
     ∃ s i, b'.samples[idx]? = some s ∧ b.samples[d]? = some i ∧ s.position = i.position := by
   unfold addSample at hok
-  simp only [hb, if_false, hd] at hok
+  split at hok
+  · cases hok
+  split at hok
+  · cases hok
+  simp only [hd] at hok
   unfold findDuplicate at hd
   obtain ⟨hlt, _, _⟩ := List.findIdx?_eq_some_iff_getElem.mp hd
   have hgd : b.samples.getD d h = b.samples[d] := by
